@@ -47,7 +47,7 @@ class PedanticBufferWriter {
   PedanticBufferWriter& operator=(const PedanticBufferWriter&) = default;
 
   Status<void> Prepare(std::size_t size) {
-    if (index_ + size > size_)
+    if (size > size_ - index_)
       return ErrorStatus::WriteLimitReached;
     else
       return {};
